@@ -104,9 +104,8 @@ Proof. vm_compute. repeat split; reflexivity. Qed.
 Lemma self_check_input_stops : reject_stops_ok v1_self_check_input [] = true.
 Proof. vm_compute. reflexivity. Qed.
 
-(* `self check output` stops after the refusal; with enable_rails_exceptions it creates the
-   exception event and does NOT stop (recorded as an observation in the evidence) *)
-Lemma self_check_output_stops : reject_stops_ok v1_self_check_output ["$config.enable_rails_exceptions"] = true.
+(* the Colang 2 twin: a rejection aborts the flow, with and without rail exceptions *)
+Lemma v2_self_check_input_aborts : v2_reject_aborts v2lib_self_check_input "not $allowed" = true.
 Proof. vm_compute. reflexivity. Qed.
 
 (* ---- guardrails.co ---- *)
